@@ -88,14 +88,18 @@ pub fn gen_sugg_batch(d: &mut D, families: usize) -> Vec<Spec> {
         let mid = specs.len();
         let mut fl = Field::plain(&format!("inner{}", mid), if d.bool() { Ty::Recv(nid) } else { Ty::Boxed(Box::new(Ty::Recv(nid))) });
         fl.flatten = true;
-        let m = mk_struct(d, mid, Trait::FromMeta, &sfx(2), vec![fl]);
+        let mut m = mk_struct(d, mid, Trait::FromMeta, &sfx(2), vec![fl]);
+        // (next to a flatten member `allow_unknown_fields` changes nothing: unknown names still go to the member, and
+        // the receiver's own names stay candidates)
+        m.container.allow_unknown = d.ratio(1, 3);
         specs.push(m);
         // P: flattens M; FromMeta or element-level
         let pid = specs.len();
         let mut fl = Field::plain(&format!("mid{}", pid), Ty::Recv(mid));
         fl.flatten = true;
         let tr = *d.pick(&[Trait::FromMeta, Trait::FromMeta, Trait::FromDeriveInput, Trait::FromField, Trait::FromAttributes]);
-        let p = mk_struct(d, pid, tr, &sfx(3), vec![fl]);
+        let mut p = mk_struct(d, pid, tr, &sfx(3), vec![fl]);
+        p.container.allow_unknown = d.ratio(1, 3);
         specs.push(p);
     }
     specs
